@@ -591,6 +591,21 @@ fn oracle_solve(r: &Req, out: &str) -> Result<(), String> {
             }
         }
     }
+    // the clock read by info.update: never goes back, and is not frozen over the solve (the
+    // running "solve" timer is folded in at every pass, verbose or not)
+    if r.has("time") {
+        let t = r.fs("time");
+        if t.windows(2).any(|w| w[1] < w[0]) {
+            return Err(format!("solve_time went backwards: {:?}", t));
+        }
+        if t.len() >= 3 {
+            let inc = t.windows(2).filter(|w| w[1] > w[0]).count();
+            if 2 * inc < t.len() - 1 {
+                return Err(format!("solve_time advanced in only {} of {} passes (verbose={}): the time limit cannot be enforced",
+                    inc, t.len() - 1, r.b("verbose")));
+            }
+        }
+    }
     // printed iteration column (verbose only)
     if r.b("verbose") {
         let rows: Vec<usize> = field(out, "rows").unwrap_or("").split(',').filter(|s| !s.is_empty())
@@ -768,6 +783,99 @@ fn oracle_checkpoint(r: &Req, out: &str) -> Result<(), String> {
     Ok(())
 }
 
+// ---------------------------------------------------------------- solve.timelimit
+
+/// dense strictly convex QP with box-like constraints, big enough to take tens of ms
+fn dense_qp(rng: &mut Rng, n: usize) -> Prob {
+    let m = 2 * n;
+    // P = G'G/n + I (upper triangle)
+    let g: Vec<Vec<f64>> = (0..n).map(|_| (0..n).map(|_| rng.normal()).collect()).collect();
+    let mut colptr = vec![0];
+    let mut rowval = vec![];
+    let mut nzval = vec![];
+    for c in 0..n {
+        for r_ in 0..=c {
+            let mut v: f64 = (0..n).map(|k| g[k][r_] * g[k][c]).sum::<f64>() / n as f64;
+            if r_ == c { v += 1.0; }
+            rowval.push(r_);
+            nzval.push(v);
+        }
+        colptr.push(rowval.len());
+    }
+    let P = CscMatrix::new(n, n, colptr, rowval, nzval);
+    let A = vharness::gen::csc(rng, m, n, 1.0, Vals::Normal);
+    let q = vharness::gen::vec_of(rng, n, Vals::Normal);
+    let b: Vec<f64> = (0..m).map(|_| rng.uniform(0.5, 2.0)).collect();
+    Prob { P, q, A, b, cones: vec![NonnegativeConeT(m)] }
+}
+
+struct Timed { iterations: u32, status: SolverStatus, times: Vec<f64>, total: f64 }
+fn timed_solve(p: &Prob, verbose: bool, tl: f64) -> Timed {
+    let mut st = DefaultSettings::<f64>::default();
+    st.verbose = verbose;
+    st.time_limit = tl;
+    st.max_iter = 200;
+    let o = solve_observed(p, st);
+    Timed { iterations: o.iterations, status: o.status, times: o.passes.iter().map(|q| q.solve_time).collect(), total: o.solve_time }
+}
+
+/// calibrated time limit: measure an unlimited run, then re-solve with a limit well inside it.
+/// Alarms only on self-certifying evidence (see below); anything else is inconclusive.
+fn run_timelimit(r: &Req) -> String {
+    let mut rng = Rng::new(r.u("pseed") as u64);
+    let p = dense_qp(&mut rng, r.u("n"));
+    let verbose = r.b("verbose");
+    let mut verdict = "inconclusive".to_string();
+    let mut detail = String::from("-");
+    for attempt in 0..3 {
+        // reference: the faster of two unlimited runs
+        let a = timed_solve(&p, verbose, f64::INFINITY);
+        let b = timed_solve(&p, verbose, f64::INFINITY);
+        let rf = if a.total <= b.total { a } else { b };
+        if rf.times.len() < 6 {
+            detail = format!("short-run:{}", rf.times.len());
+            continue;
+        }
+        let (t0, tlast) = (rf.times[0], *rf.times.last().unwrap());
+        // frozen clock: decided without any timing assumption
+        let inc = rf.times.windows(2).filter(|w| w[1] > w[0]).count();
+        if 2 * inc < rf.times.len() - 1 {
+            return format!("verdict=frozen-clock detail=advanced:{}of{} attempt={}", inc, rf.times.len() - 1, attempt);
+        }
+        let tl = t0 + 0.3 * (tlast - t0);
+        let lim = timed_solve(&p, verbose, tl);
+        let stopped = lim.iterations < rf.iterations;
+        if stopped {
+            let ok_status = matches!(lim.status, SolverStatus::MaxTime | SolverStatus::AlmostSolved
+                | SolverStatus::AlmostPrimalInfeasible | SolverStatus::AlmostDualInfeasible);
+            if ok_status {
+                return format!("verdict=stopped detail=iters:{}of{}:{:?} attempt={}", lim.iterations, rf.iterations, lim.status, attempt);
+            }
+            detail = format!("stopped-with:{:?}", lim.status);
+            continue;
+        }
+        // not stopped.  Self-certifying evidence of an ignored limit: the run itself reports a
+        // total time far beyond the limit although it went through all its iteration boundaries.
+        if lim.total > 2.0 * tl && lim.iterations >= 6 {
+            verdict = "ignored".into();
+            detail = format!("limit:{:e}:total:{:e}:iters:{}:{:?}", tl, lim.total, lim.iterations, lim.status);
+        } else {
+            verdict = "inconclusive".into();
+            detail = format!("fast-rerun:limit:{:e}:total:{:e}", tl, lim.total);
+            break;
+        }
+    }
+    format!("verdict={} detail={} attempt=3", verdict, detail)
+}
+fn oracle_timelimit(_r: &Req, out: &str) -> Result<(), String> {
+    match field(out, "verdict") {
+        Some("stopped") | Some("inconclusive") => Ok(()),
+        Some("frozen-clock") => Err(format!("info.solve_time does not advance during the solve: {}", out)),
+        Some("ignored") => Err(format!("a finite time_limit inside the run was ignored on three calibrated attempts: {}", out)),
+        _ => Err(format!("time-limit probe failed: {}", out)),
+    }
+}
+
 // ---------------------------------------------------------------- new.check_dimensions
 
 fn run_check_dimensions(r: &Req) -> String {
@@ -824,6 +932,8 @@ fn channels() -> Vec<Channel> {
         Channel { name: "new.check_dimensions", tol: Tol::Exact, run: run_check_dimensions,
             oracle: Some(oracle_check_dimensions), modelled: true, rust_fn: "DefaultSolver::new / _check_dimensions",
             lean: "Loop.checkDimensions / C04.dimension_guard" },
+        Channel { name: "solve.timelimit", tol: Tol::Exact, run: run_timelimit, oracle: Some(oracle_timelimit), modelled: false,
+            rust_fn: "Solver::solve timers (notimeit!/total_time) + check_termination time limit", lean: "C04.maxtime" },
         Channel { name: "solve.boundary", tol: Tol::Exact, run: run_boundary, oracle: Some(oracle_solve), modelled: false,
             rust_fn: "DefaultSolver::new + solve on boundary shapes", lean: "-" },
     ]
@@ -908,6 +1018,66 @@ fn degenerate_problem(rng: &mut Rng) -> (Prob, DefaultSettings<f64>) {
     }
     st.direct_solve_method = "qdldl".into();
     (p, st)
+}
+
+/// the textbook exponential-cone problem of tests/basic_expcone.rs
+fn basic_expcone() -> Prob {
+    let mut A1 = CscMatrix::<f64>::identity(3);
+    A1.negate();
+    let A2 = CscMatrix::new(2, 3, vec![0, 0, 1, 2], vec![0, 1], vec![1., 1.]);
+    let A = CscMatrix::vcat(&A1, &A2).unwrap();
+    Prob { P: CscMatrix::zeros((3, 3)), q: vec![-1., 0., 0.], A, b: vec![0., 0., 0., 1., f64::exp(5.)],
+        cones: vec![ExponentialConeT(), ZeroConeT(2)] }
+}
+
+/// nonsymmetric problems pushed to tolerances they cannot reach under primal-dual scaling:
+/// the family on which the solver rolls back and falls back to the dual strategy
+fn switch_problem(rng: &mut Rng, k: usize) -> (Prob, DefaultSettings<f64>) {
+    let mut st = DefaultSettings::<f64>::default();
+    st.verbose = true;
+    st.max_iter = 80;
+    st.tol_feas = *rng.choose(&[1e-12, 1e-12, 1e-13, 1e-11]);
+    if rng.bool(0.5) {
+        st.tol_gap_abs = 1e-12;
+        st.tol_gap_rel = 1e-12;
+    }
+    let p = if k == 0 { st.tol_feas = 1e-12; st.tol_gap_abs = 1e-8; st.tol_gap_rel = 1e-8; basic_expcone() } else {
+        let kinds = *rng.choose(&["e", "p", "ep", "en", "pn", "ez", "e", "p"]);
+        let cones = cone_list(rng, kinds, 3);
+        let n = 1 + rng.below(4);
+        let pdiag = *rng.choose(&[0.0, 0.0, 1.0]);
+        planted(rng, n, cones, pdiag, Vals::Normal)
+    };
+    (p, st)
+}
+
+/// for a run that switches strategy, every iteration budget up to its length must be honoured
+fn sweep_switch(s: &mut Session, p: &Prob, st: &DefaultSettings<f64>) {
+    let (pc, sc) = (p.clone(), st.clone());
+    let Ok(o) = std::panic::catch_unwind(std::panic::AssertUnwindSafe(|| solve_observed(&pc, sc))) else { return };
+    let switch_iters: Vec<u32> = o.passes.iter().filter(|q| q.ip.as_deref() == Some("Update(Dual)")
+        || q.sm.as_deref() == Some("Update(Dual)") || q.ne.as_ref().map(|x| x.1 == "Update(Dual)").unwrap_or(false))
+        .map(|q| q.snap.iterations).collect();
+    if switch_iters.is_empty() {
+        return;
+    }
+    if o.passes.iter().any(|q| q.ip.as_deref() == Some("Update(Dual)")) {
+        s.count("switch-after-rollback");
+    } else {
+        s.count("switch-other");
+    }
+    submit_trace(s, p, st.clone());
+    let last = (o.iterations as usize).min(60);
+    for k in 0..=last {
+        // all budgets for short runs, otherwise the neighbourhood of each switch
+        if last > 24 && !switch_iters.iter().any(|&w| (k as i64 - w as i64).abs() <= 2) && k % 7 != 0 {
+            continue;
+        }
+        let mut sk = st.clone();
+        sk.max_iter = k as u32;
+        s.count("switch-sweep");
+        submit_trace(s, p, sk);
+    }
 }
 
 fn submit_trace(s: &mut Session, p: &Prob, st: DefaultSettings<f64>) {
@@ -1154,6 +1324,23 @@ fn generate(s: &mut Session) {
         let p = random_problem(&mut rng);
         let st = base_settings(&mut rng);
         submit_trace(s, &p, st);
+    }
+    // strategy switches x iteration budgets (incl. max_iter == the switch iteration)
+    for k in 0..s.budget(40, 1500) {
+        let mut rng = s.rng.fork();
+        let (p, st) = switch_problem(&mut rng, k);
+        sweep_switch(s, &p, &st);
+    }
+    // calibrated time limits, quiet and verbose
+    if !s.is_searching() {
+        for k in 0..s.budget(2, 10) {
+            let pseed = s.rng.below(1 << 30);
+            for verbose in [false, true] {
+                let l = Line::new("solve.timelimit").u("pseed", pseed).u("n", 110 + 10 * (k % 4)).b("verbose", verbose);
+                let out = s.submit(l.done());
+                s.count(&format!("timelimit:{}", field(&out, "verdict").unwrap_or("?")));
+            }
+        }
     }
     // degenerate family: numerical breakdown, strategy switches, rollbacks
     for _ in 0..s.budget(250, 20000) {
